@@ -28,6 +28,7 @@ VERIF_KINDS = [
     'unreachable', 'loop invariant', 'assertion failure', 'failed precondition',
     'may fail to meet its declared type invariant', 'recursive call', 'cannot prove',
     'possible truncation', 'call to nonterminating', 'value may be out of range',
+    'unable to prove', 'post-condition of closure', 'pre-condition of closure',
 ]
 SAFETY_KINDS = {
     'possible arithmetic underflow/overflow': 'overflow',
@@ -189,7 +190,7 @@ class Failure:
                 return v
         if 'precondition' in low:
             return 'call-pre'
-        if 'postcondition' in low:
+        if 'postcondition' in low or 'post-condition' in low:
             return 'ensures'
         if 'invariant' in low:
             if 'before loop' in low:
